@@ -17,9 +17,14 @@ META = {
               'monotonicity instances); numpy.degrees / radians -> multiplication by a positive constant',
               'numpy.sin / cos in angles_to_x -> opaque values with sin^2 + cos^2 = 1 (the reference uses the same conversion)'],
     'assumptions': ['cap centres and Cartesian points are unit vectors; |x.p| <= 1 (Cauchy-Schwarz) is supplied to the solver as a lemma',
-                    'floats are exact reals'],
-    'outside_bounds': 'the three storage formats (Mangle text, FITS polygon table, window_read assembly: astropy I/O); IEEE rounding of x.p at a '
-                      'cap centre (1+eps -> arccos NaN) is invisible in exact reals; more than 3 caps / 3 polygons / 2 points',
+                    'floats are exact reals, except in the two binary64 obligations (QF_FP, round-to-nearest-even): there numpy.dot is a contract stub '
+                    'returning an arbitrary double within 2^-50 of [-1, 1] (of 1 at a cap centre) - BLAS may use any summation order or fused '
+                    'multiply-add; arccos is a function symbol with: NaN outside [-1, 1] and for NaN, values in [0, fl(pi)] inside, arccos(1) = 0, '
+                    'weakly decreasing, arccos(a) >= 2^-20 for a <= 1 - 2^-40 and <= 2^-24 for a >= 1 - 2^-50; numpy.degrees keeps NaN-ness, sign '
+                    'and zero-ness (product with the double 180/pi > 1); 2^-40 <= |cm| <= 2 at a cap centre'],
+    'outside_bounds': 'the three storage formats (Mangle text, FITS polygon table, window_read assembly: astropy I/O); IEEE rounding other than '
+                      'that of the dot product fed to arccos (binary64 obligations); caps smaller than cm = 2^-40 tested at their own centre; '
+                      'more than 3 caps / 3 polygons / 2 points',
 }
 
 
@@ -155,6 +160,123 @@ def ob_cap(at_centre):
         finally:
             _uninstall()
     return Obligation('is_in_cap at_centre=%d' % at_centre, fn, bounds='every unit cap centre, cm in (-2,2), unit point', solver_timeout_ms=120000)
+
+
+# ------------------------------------------------------------------ binary64 side of cap membership
+class FTrig(object):
+    """arccos / degrees / dot / clip on binary64 terms.  arccos is a function symbol with the IEEE /
+    libm facts the argument needs; degrees is the exact product numpy computes; numpy.dot is a
+    *contract stub*: it returns an arbitrary double named by the harness (BLAS may use any summation
+    order and fused multiply-adds, see validate())."""
+
+    def __init__(self, ctx, dot_value):
+        from pathsym import fp
+        self.ctx, self.fp = ctx, fp
+        self.apps = []
+        self.dot_value = dot_value
+        self.PI = z3.FPVal(3.141592653589793, fp.SORT)
+        self.K = z3.FPVal(57.29577951308232, fp.SORT)     # 180.0 / pi as numpy's npy_rad2deg uses it
+
+    def arccos(self, x):
+        fp = self.fp
+
+        def one(e):
+            a = fp.F64.lift(e).t
+            v = z3.FP(self.ctx.fresh_name('acos64'), fp.SORT)      # one constant per application + congruence below (no UF: z3's QF_FP strategy applies)
+            one_ = z3.FPVal(1.0, fp.SORT)
+            indom = z3.And(z3.Not(z3.fpIsNaN(a)), z3.fpLEQ(a, one_), z3.fpGEQ(a, z3.fpNeg(one_)))
+            self.ctx.add(z3.If(indom, z3.And(z3.Not(z3.fpIsNaN(v)), z3.fpGEQ(v, z3.FPVal(0.0, fp.SORT)), z3.fpLEQ(v, self.PI)), z3.fpIsNaN(v)))
+            self.ctx.add(z3.Implies(z3.fpEQ(a, one_), z3.fpIsZero(v)))
+            # two numeric facts: arccos(1 - e) ~ sqrt(2 e), so arccos(a) >= 2^-20 for a <= 1 - 2^-40 and <= 2^-24 for a >= 1 - 2^-50
+            self.ctx.add(z3.Implies(z3.And(indom, z3.fpLEQ(a, z3.FPVal(1.0 - 2.0 ** -40, fp.SORT))), z3.fpGEQ(v, z3.FPVal(2.0 ** -20, fp.SORT))))
+            self.ctx.add(z3.Implies(z3.fpGEQ(a, z3.FPVal(1.0 - 2.0 ** -50, fp.SORT)), z3.Or(z3.fpIsNaN(v), z3.fpLEQ(v, z3.FPVal(2.0 ** -24, fp.SORT)))))
+            for (pa, pv) in self.apps:
+                # weakly decreasing on the domain (glibc's acos: < 1 ulp and monotone; assumption)
+                self.ctx.add(z3.Implies(a == pa, v == pv))
+                self.ctx.add(z3.Implies(z3.And(z3.Not(z3.fpIsNaN(v)), z3.Not(z3.fpIsNaN(pv))),
+                                        z3.And(z3.Implies(z3.fpLEQ(a, pa), z3.fpGEQ(v, pv)), z3.Implies(z3.fpGEQ(a, pa), z3.fpLEQ(v, pv)))))
+            self.apps.append((a, v))
+            return fp.F64(v)
+        return _map(x, one)
+
+    def degrees(self, x):
+        # x * (180/pi as a double, > 1): the product keeps NaN-ness, sign and zero-ness (no underflow
+        # for a factor above 1); only that is used, so the 53x53-bit multiplier is left out
+        fp = self.fp
+
+        def one(e):
+            a = fp.F64.lift(e).t
+            v = z3.FP(self.ctx.fresh_name('deg64'), fp.SORT)
+            zero = z3.FPVal(0.0, fp.SORT)
+            self.ctx.add(z3.And(z3.fpIsNaN(v) == z3.fpIsNaN(a), z3.fpGT(v, zero) == z3.fpGT(a, zero), z3.fpLT(v, zero) == z3.fpLT(a, zero),
+                                z3.fpIsZero(v) == z3.fpIsZero(a), z3.fpIsNegative(v) == z3.fpIsNegative(a)))
+            return fp.F64(v)
+        return _map(x, one)
+
+    def dot(self, a, b):
+        out = np.empty((np.shape(a)[0],), dtype=object)
+        for i in range(out.shape[0]):
+            out[i] = self.dot_value
+        return out
+
+    def install(self):
+        H = symnp.TRANSCENDENTAL_HOOKS
+        H['arccos'], H['degrees'] = self.arccos, self.degrees
+        symnp._OVER['dot'] = self.dot
+
+    @staticmethod
+    def uninstall():
+        for k in ('arccos', 'degrees'):
+            symnp.TRANSCENDENTAL_HOOKS.pop(k, None)
+        symnp._OVER.pop('dot', None)
+
+
+BAND = 2.0 ** -50      # |fl(x.x) - 1| for a double vector normalised in doubles is below 5 * 2^-53
+
+
+def ob_cap_float(kind):
+    """kind 'centre': the point is the cap's own centre (x.x = 1 to rounding) -> inside iff cm > 0;
+    kind 'nan': any pair of unit vectors (|x.p| <= 1 to rounding) -> the distance is a number."""
+    def fn(ctx):
+        from pydl.pydlutils.mangle import is_in_cap, cap_distance
+        from pathsym import fp
+        F = fp.F64
+        d = F.var(ctx, 'dotprod')
+        cm = F.var(ctx, 'cm')
+        one = z3.FPVal(1.0, fp.SORT)
+        hi = z3.FPVal(1.0 + BAND, fp.SORT)
+        fin = lambda t: z3.And(z3.Not(z3.fpIsNaN(t)), z3.Not(z3.fpIsInf(t)))
+        ctx.add(fin(cm.t))
+        ctx.add(z3.fpLEQ(z3.fpAbs(cm.t), z3.FPVal(2.0, fp.SORT)))
+        if kind == 'centre':
+            ctx.add(z3.And(z3.fpGEQ(d.t, z3.FPVal(1.0 - BAND, fp.SORT)), z3.fpLEQ(d.t, hi)))
+            ctx.add(z3.fpGEQ(z3.fpAbs(cm.t), z3.FPVal(2.0 ** -40, fp.SORT)))
+            _hint(ctx, z3.fpEQ(d.t, z3.FPVal(1.0 + 2.0 ** -52, fp.SORT)))
+        else:
+            ctx.add(z3.And(z3.fpGEQ(d.t, z3.fpNeg(hi)), z3.fpLEQ(d.t, hi)))
+            _hint(ctx, z3.Or(z3.fpEQ(d.t, z3.FPVal(1.0 + 2.0 ** -52, fp.SORT)), z3.fpEQ(d.t, z3.FPVal(-1.0 - 2.0 ** -52, fp.SORT))))
+        _hint(ctx, z3.Or(z3.fpEQ(cm.t, z3.FPVal(0.25, fp.SORT)), z3.fpEQ(cm.t, z3.FPVal(-0.25, fp.SORT))))
+        tr = FTrig(ctx, d)
+        tr.install()
+        try:
+            det = {'fn': 'cap_float', 'kind': kind}
+            ctx.detail = det
+            # the vectors themselves do not matter to the stubbed dot product: opaque doubles
+            x = symnp._build_object([F.var(ctx, 'x%d' % k) for k in range(3)])
+            pts = np.empty((1, 3), dtype=object)
+            for k in range(3):
+                pts[0, k] = x[k]
+            if kind == 'centre':
+                got = bool(is_in_cap(x, cm, pts)[0])
+                ctx.require(z3.BoolVal(got) == z3.fpGT(cm.t, z3.FPVal(0.0, fp.SORT)),
+                            'is_in_cap (binary64): the cap\'s own centre is inside for cm > 0 and outside for cm < 0', det)
+            else:
+                r = cap_distance(x, cm, pts)[0]
+                ctx.require(z3.Not(z3.fpIsNaN(F.lift(r).t)), 'cap_distance (binary64): a number for every pair of unit vectors', det)
+        finally:
+            tr.uninstall()
+    return Obligation('is_in_cap binary64 %s' % kind, fn, solver_timeout_ms=120000, logic='QF_FP',
+                      bounds='every double dot product within 2^-50 of [-1, 1] (centre: of 1), every double cm with %s|cm| <= 2' % ('2^-40 <= ' if kind == 'centre' else ''))
 
 
 def ob_polygon(ncaps, npoints, radec, ncaps_arg):
@@ -294,7 +416,7 @@ def ob_use_caps(ncaps, index_list, add):
 
 def obligations(tier, seed):
     q = tier == 'quick'
-    obs = [ob_cap(False), ob_cap(True)]
+    obs = [ob_cap(False), ob_cap(True), ob_cap_float('centre'), ob_cap_float('nan')]
     obs.append(ob_polygon(0, 1, False, 0))
     obs.append(ob_polygon(1, 1, False, 0))
     obs.append(ob_polygon(2, 1, False, 0))
@@ -322,6 +444,37 @@ def obligations(tier, seed):
     obs.append(ob_use_caps(3, (1,), True))
     obs.append(ob_use_caps(2, (1, 0), False))
     return obs
+
+
+def validate(seed, tier):
+    """the contract stubs of the binary64 obligations, compared with this machine's numpy on samples:
+    dot products of normalised vectors stay in the band, the arccos facts, degrees as a product."""
+    import math
+    rng = np.random.default_rng(seed + 12)
+    n = 0
+    for _ in range(3000 if tier == 'quick' else 30000):
+        v = rng.normal(size=3)
+        v /= np.sqrt((v * v).sum())
+        w = rng.normal(size=3)
+        w /= np.sqrt((w * w).sum())
+        for a, b in ((v, v), (v, -v), (v, w)):
+            dv = float(np.dot(a.reshape(1, 3), b)[0])
+            assert -1.0 - BAND <= dv <= 1.0 + BAND, ('dot outside the band', a, b)
+        dv = float(np.dot(v.reshape(1, 3), v)[0])
+        assert 1.0 - BAND <= dv, ('self dot product below the band', v)
+        n += 4
+    with np.errstate(invalid='ignore'):
+        assert float(np.arccos(1.0)) == 0.0 and math.isnan(float(np.arccos(1.0000000000000002))) and math.isnan(float(np.arccos(-1.0000000000000002)))
+        assert float(np.arccos(-1.0)) == 3.141592653589793
+        assert float(np.arccos(1.0 - 2.0 ** -40)) >= 2.0 ** -20 and float(np.arccos(1.0 - 2.0 ** -50)) <= 2.0 ** -24
+        xs = np.sort(np.concatenate([1.0 - 2.0 ** -rng.uniform(1, 53, size=2000), rng.uniform(-1, 1, size=2000), [1.0, -1.0]]))
+        ac = np.arccos(xs)
+        assert (np.diff(ac) <= 0).all() and (ac >= 0).all() and (ac <= 3.141592653589793).all(), 'arccos not weakly decreasing on the sample'
+        assert (ac[xs <= 1.0 - 2.0 ** -40] >= 2.0 ** -20).all() and (ac[xs >= 1.0 - 2.0 ** -50] <= 2.0 ** -24).all()
+        ys = np.concatenate([rng.normal(size=2000), [0.0, -0.0, 5e-324, -5e-324, 1e-300]])
+        assert (np.degrees(ys) == ys * 57.29577951308232).all() and (np.signbit(np.degrees(ys)) == np.signbit(ys)).all()
+        assert ((np.degrees(ys) == 0) == (ys == 0)).all()
+    return n + xs.size + ys.size
 
 
 # ------------------------------------------------------------------ replay
@@ -356,6 +509,26 @@ def replay(rec):
             return False
         got = bool(is_in_cap(x, cm, p.reshape(1, 3))[0])
         return got != _in_cap_float(x, cm, p)
+    if fn == 'cap_float':
+        from pathsym.fp import from_bits
+        from pydl.pydlutils.mangle import cap_distance
+        cm, dv = from_bits(inp['cm']), from_bits(inp['dotprod'])
+        # a concrete pair of unit vectors whose numpy dot product is the double the solver chose
+        rng = np.random.default_rng(12)
+        found = None
+        for _ in range(400000):
+            v = rng.normal(size=3)
+            v /= np.sqrt((v * v).sum())
+            w = v if dv > 0 else -v
+            if float(np.dot(w.reshape(1, 3), v)[0]) == dv:
+                found = (v, w)
+                break
+        if found is None:
+            return False
+        v, w = found
+        if d['kind'] == 'centre':
+            return bool(is_in_cap(v, cm, w.reshape(1, 3))[0]) != (cm > 0)
+        return bool(np.isnan(cap_distance(v, cm, w.reshape(1, 3))[0]))
     if fn == 'polygon':
         ncaps, npoints = d['ncaps'], d['npoints']
         if d['radec']:
